@@ -208,9 +208,11 @@ type event struct {
 	Kind int
 	ID   int // hook events: ordinal of the begin (0-based); body events: body id
 	Snap snapshot
+	At   time.Duration // begin events: monotonic time since just before the run was started
 }
 
 type eventLog struct {
+	t0     time.Time
 	mu     sync.Mutex
 	events []event
 	begins int
@@ -221,7 +223,7 @@ func (l *eventLog) hook(point string) {
 	switch point {
 	case "file.stage.begin":
 		l.mu.Lock()
-		l.events = append(l.events, event{Kind: evBegin, ID: l.begins, Snap: takeSnapshot()})
+		l.events = append(l.events, event{Kind: evBegin, ID: l.begins, Snap: takeSnapshot(), At: time.Since(l.t0)})
 		l.begins++
 		l.mu.Unlock()
 	case "file.stage.end":
@@ -271,6 +273,16 @@ func judgeLog(c runCase, events []event) (string, runFacts) {
 			}
 			if !e.Snap.exactly(c.expectedEnv(e.ID)) {
 				return fmt.Sprintf("when stage %d started to trigger the environment was %s, its parameters are %s", e.ID, e.Snap, envString(c.expectedEnv(e.ID))), f
+			}
+			// a stage lasts (at least) its duration: stage k cannot begin before the durations of the
+			// stages before it have passed (a lower bound, sound under any scheduling delay)
+			var scheduled time.Duration
+			for _, st := range c.Stages[:e.ID] {
+				scheduled += st.Duration
+			}
+			if e.At != 0 && e.At+100*time.Microsecond < scheduled {
+				return fmt.Sprintf("stage %d began %s after the run was started, but the %d stages before it last %s together (each stage runs for its own duration, one after another)",
+					e.ID, e.At, e.ID, scheduled), f
 			}
 			open = true
 			f.Begins++
@@ -323,7 +335,7 @@ func TestProp_StagedRun(t *testing.T) {
 		for _, k := range runKeys {
 			os.Unsetenv(k)
 		}
-		log := &eventLog{}
+		log := &eventLog{t0: time.Now()}
 		verifhook.Set(log.hook)
 		defer verifhook.Clear()
 		scenario := func(*f1testing.T) f1testing.RunFn {
@@ -351,6 +363,9 @@ func TestProp_StagedRun(t *testing.T) {
 			}()
 		}
 		started := time.Now()
+		log.mu.Lock()
+		log.t0 = started
+		log.mu.Unlock()
 		_, err := vlib.Execute(spec)
 		elapsed := time.Since(started)
 		verifhook.Clear()
@@ -458,7 +473,7 @@ func renderEvents(events []event) []string {
 func TestRegressLogOracle(t *testing.T) {
 	a := map[string]string{runKeys[0]: "a1", runKeys[1]: "b1"}
 	b := map[string]string{runKeys[0]: "a2"}
-	c := runCase{Stages: []runStage{{Params: a}, {Params: b}}}
+	c := runCase{Stages: []runStage{{Params: a, Duration: 2 * time.Second}, {Params: b}}}
 	snap := func(m map[string]string) snapshot {
 		var s snapshot
 		for i, k := range runKeys {
@@ -466,8 +481,8 @@ func TestRegressLogOracle(t *testing.T) {
 		}
 		return s
 	}
-	clean := []event{{evBegin, 0, snap(a)}, {evReadStart, 0, snapshot{}}, {evReadEnd, 0, snap(a)}, {evReadStart, 1, snapshot{}}, {evEnd, 0, snap(a)},
-		{evReadEnd, 1, snapshot{}}, {evBegin, 1, snap(b)}, {evReadStart, 2, snapshot{}}, {evReadEnd, 2, snap(b)}, {evEnd, 1, snap(b)}}
+	clean := []event{{Kind: evBegin, ID: 0, Snap: snap(a)}, {Kind: evReadStart, ID: 0, Snap: snapshot{}}, {Kind: evReadEnd, ID: 0, Snap: snap(a)}, {Kind: evReadStart, ID: 1, Snap: snapshot{}}, {Kind: evEnd, ID: 0, Snap: snap(a)},
+		{Kind: evReadEnd, ID: 1, Snap: snapshot{}}, {Kind: evBegin, ID: 1, Snap: snap(b)}, {Kind: evReadStart, ID: 2, Snap: snapshot{}}, {Kind: evReadEnd, ID: 2, Snap: snap(b)}, {Kind: evEnd, ID: 1, Snap: snap(b)}}
 	if v, f := judgeLog(c, clean); v != "" || f.Judged != 2 || f.Unjudged != 1 || f.Begins != 2 {
 		t.Fatalf("VERIF-INFRA: clean log judged %q %+v", v, f)
 	}
@@ -477,12 +492,13 @@ func TestRegressLogOracle(t *testing.T) {
 		return out
 	}
 	bad := map[string][]event{
-		"stale value":       mutate(8, event{evReadEnd, 2, snap(a)}),
-		"leftover key":      mutate(8, event{evReadEnd, 2, snap(map[string]string{runKeys[0]: "a2", runKeys[1]: "b1"})}),
-		"overlap":           {clean[0], clean[6], clean[4], clean[9]},
-		"missing at begin":  mutate(6, event{evBegin, 1, snapshot{}}),
-		"unset before end":  mutate(9, event{evEnd, 1, snapshot{}}),
-		"end never arrives": clean[:9],
+		"stale value":        mutate(8, event{Kind: evReadEnd, ID: 2, Snap: snap(a)}),
+		"leftover key":       mutate(8, event{Kind: evReadEnd, ID: 2, Snap: snap(map[string]string{runKeys[0]: "a2", runKeys[1]: "b1"})}),
+		"overlap":            {clean[0], clean[6], clean[4], clean[9]},
+		"missing at begin":   mutate(6, event{Kind: evBegin, ID: 1, Snap: snapshot{}}),
+		"unset before end":   mutate(9, event{Kind: evEnd, ID: 1, Snap: snapshot{}}),
+		"end never arrives":  clean[:9],
+		"second stage early": mutate(6, event{Kind: evBegin, ID: 1, Snap: snap(b), At: time.Second}),
 	}
 	names := make([]string, 0, len(bad))
 	for n := range bad {
